@@ -51,15 +51,19 @@ def to_md(form) -> str:
     return md_of_sheets(sheets_of(form))
 
 
-def md_of_sheets(sheets, cols=None) -> str:
-    """cols: optional {sheet name: column list with None for header-less empty columns}"""
+def md_of_sheets(sheets, cols=None, remark_key=None) -> str:
+    """cols: optional {sheet name: column list with None for header-less empty columns};
+    remark_key: a row that has this key puts its value into the last (header-less) column"""
     lines = []
     for name, head, rows in sheets:
         head = (cols or {}).get(name, head)
         lines.append(f"| {name} |")
         lines.append("| | " + " | ".join(md_cell(h) for h in head) + " |")
         for r in rows:
-            lines.append("| | " + " | ".join(md_cell(r.get(h) if h is not None else None) for h in head) + " |")
+            cells = [md_cell(r.get(h) if h is not None else None) for h in head]
+            if remark_key and remark_key in r:
+                cells[-1] = md_cell(r[remark_key])
+            lines.append("| | " + " | ".join(cells) + " |")
     return "\n".join(lines) + "\n"
 
 
@@ -67,7 +71,7 @@ def to_csv(form) -> str:
     return csv_of_sheets(sheets_of(form))
 
 
-def csv_of_sheets(sheets, cols=None) -> str:
+def csv_of_sheets(sheets, cols=None, remark_key=None) -> str:
     buf = io.StringIO(newline="")
     w = csv.writer(buf, lineterminator="\n")
     for name, head, rows in sheets:
@@ -75,7 +79,10 @@ def csv_of_sheets(sheets, cols=None) -> str:
         w.writerow([name])
         w.writerow(["", *["" if h is None else h for h in head]])
         for r in rows:
-            w.writerow(["", *[("" if h is None or r.get(h) is None else r.get(h)) for h in head]])
+            cells = [("" if h is None or r.get(h) is None else r.get(h)) for h in head]
+            if remark_key and remark_key in r:
+                cells[-1] = r[remark_key]
+            w.writerow(["", *cells])
     return buf.getvalue()
 
 
